@@ -702,6 +702,17 @@ func (s *Subtitles) removeUnusedRegionsAndStyles() {
 		}
 	}
 
+	// Styles inherited by used styles are used as well
+	for changed := true; changed; {
+		changed = false
+		for _, style := range s.Styles {
+			if usedStyles[style.ID] && style.Style != nil && !usedStyles[style.Style.ID] {
+				usedStyles[style.Style.ID] = true
+				changed = true
+			}
+		}
+	}
+
 	// Loop through style
 	for id, style := range s.Styles {
 		if _, ok := usedStyles[style.ID]; !ok {
